@@ -279,7 +279,7 @@ var c27SessionSamples int32
 // c27ExploreSession enumerates every behaviour script of one session case with at most F non-ok
 // behaviours (F from the spec), over the slots the backends actually consume during the session.
 func c27ExploreSession(k *c27Worker, rep *vh.Report, base c27Case, thorough bool, deadline time.Time, anomalyOnce *sync.Once, record func(key string, size int, detail string, c c27Case)) (capped bool) {
-	var runs, faulty, reusedFault, reusedAny int64
+	var runs, faulty, reusedFault, reusedAny, partial int64
 	sigs := map[string]bool{}
 	opts := func(a *c27Arrival) []c27Beh {
 		return append(c27Options(a.Parts, thorough), c27Beh{Kind: "okClose"})
@@ -296,6 +296,12 @@ func c27ExploreSession(k *c27Worker, rep *vh.Report, base c27Case, thorough bool
 			sigs[sig] = false
 		}
 		onReused, anyReused := false, false
+		for _, a := range so.Arrivals {
+			if a.Beh.Kind == "omitSome" {
+				partial++
+				break
+			}
+		}
 		for _, a := range so.Arrivals {
 			if a.Reused {
 				anyReused = true
@@ -345,6 +351,7 @@ func c27ExploreSession(k *c27Worker, rep *vh.Report, base c27Case, thorough bool
 	rep.Eval(runs)
 	rep.Count("session_runs", runs)
 	rep.Count("session_runs_with_faults", faulty)
+	rep.Count("session_runs_with_partially_answered_sub_request", partial)
 	rep.Count("session_runs_reusing_a_backend_connection", reusedAny)
 	rep.Count("session_runs_with_fault_on_reused_connection", reusedFault)
 	rep.Count(fmt.Sprintf("session_cases_%d_requests", len(base.Steps)), 1)
